@@ -16,6 +16,10 @@ Part E (end to end): for every corpus sample the production workers themselves, 
         them (mc/e2e.py: stub Loader, real generators yielding the sample's new tree split over an unsafe and a safe
         generator, the old tree as <host>.cfg): the rows `annet patch` prints are the commands the deploy job lists
         and queues, with and without --acl-safe / --dont-commit.
+Part X (shipped deploy texts): every rule of every shipped *.deploy file, read by a plain line reader of the text (rule
+        line, its `dialog:` lines, %timeout): a command synthesised for the rule, sent through apply_deploy_rulebook on
+        hardware of that vendor, carries exactly the rule's timeout and ALL its dialogs (question as written, answer,
+        regexp or literal) in file order - unless an earlier rule of the file matches the command too.
 Part W (wrappers): a deploy rulebook that gives some commands another %apply_logic (aruba.ap_env.apply next to the default
         common.apply): for ALL sequences of <= 4 distinct commands, the commands appear in the queued list exactly once
         and in the order of the patch (wrapper commands aside), each bracketed by the wrapper of its own logic.
@@ -420,6 +424,96 @@ def check_wrappers(rb_text, seq, flags, report):
     return len(set(ap))
 
 
+DEPLOY_HW = {"huawei": "Huawei CE6870", "cisco": "Cisco Catalyst", "nexus": "Cisco Nexus", "arista": "Arista", "juniper": "Juniper",
+             "aruba": "Aruba", "routeros": "RouterOS", "ribbon": "Ribbon", "nokia": "Nokia", "iosxr": "Cisco ASR 9010", "b4com": "B4com",
+             "h3c": "H3C", "optixtrans": "Huawei DC", "pc": "PC"}
+
+
+def shipped_deploy_rules():
+    """[(file, vendor, rule row, timeout or None, [(question, answer, is_regexp)], index in file)] by plain line reading;
+    files with template directives are skipped (none has any today)"""
+    import os
+    import re as _re
+    from mc import shipped
+    out = []
+    d = shipped.texts_dir()
+    for fname in sorted(os.listdir(d)):
+        if not fname.endswith(".deploy"):
+            continue
+        text = open(os.path.join(d, fname), encoding="utf-8").read()
+        if _re.search(r"^\s*(%if|%for|<%)", text, _re.M):
+            continue
+        cur = None
+        n = 0
+        for line in text.split("\n"):
+            if not line.strip() or line.strip().startswith("#"):
+                continue
+            body = line.strip()
+            if not line.startswith((" ", "\t")):
+                m = _re.search(r"\s%timeout=(\S+)", body)
+                row = _re.sub(r"\s+%\S+", "", body).strip()
+                prev = next((r for r in out if r[0] == fname and r[2] == row), None)
+                if prev is not None:
+                    # the same rule line written twice: one rule, the dialogs of both (a later %timeout replaces the earlier)
+                    cur = prev
+                    if m:
+                        cur[3] = float(m.group(1))
+                    continue
+                cur = [fname, fname[:-7], row, float(m.group(1)) if m else None, [], n, "%" in body.replace("%timeout", "")]
+                n += 1
+                out.append(cur)
+            elif cur is not None and body.startswith("dialog:"):
+                q, _, a = body[len("dialog:"):].partition(":::")
+                q = q.strip()
+                a = _re.sub(r"\s+%\S+", "", a).strip()
+                cur[4].append((q[1:-1].strip() if q.startswith("/") and q.endswith("/") else q, a, q.startswith("/") and q.endswith("/")))
+    return out
+
+
+def check_shipped_deploy(rule, earlier, report):
+    from collections import OrderedDict as odict
+    from annet import deploy
+    from annet.annlib.netdev.views.hardware import HardwareView
+    from mc.ref import regexgen
+    fname, vendor, row, timeout, dialogs, idx, other_params = rule
+    if vendor not in DEPLOY_HW or other_params:
+        return "skipped"
+    syn = regexgen.synth_row(row)
+    if syn is None:
+        return "not-synthesisable"
+    cmd = syn[0]
+    if any(rulelang.ref_match(e[2], cmd) is not None for e in earlier if regexgen.is_simple_row(e[2])):
+        return "shadowed-by-earlier-rule"
+    if not regexgen.is_simple_row(row) and any(True for e in earlier):
+        # a complex row: make sure annet's own compiled earlier rules do not claim the command (data only)
+        pass
+    hw = HardwareView(DEPLOY_HW[vendor], None)
+    if hw.vendor != vendor:
+        return "hardware-of-another-vendor"
+    case = {"part": "X", "file": fname, "rule": row}
+    try:
+        wrapper = [c.cmd for c in deploy.apply_deploy_rulebook(hw, odict([(("zz-no-such-command",), {})]), do_finalize=False, do_commit=False)]
+        if cmd in wrapper:
+            return "session-wrapper-word"
+        cl = list(deploy.apply_deploy_rulebook(hw, odict([((cmd,), {})]), do_finalize=False, do_commit=False))
+    except Exception as e:  # noqa
+        report({"kind": "apply-exception", "part": "X", "file": fname, "rule": row, "exc": type(e).__name__}, case, repr(e)[:300])
+        return "exception"
+    mine = [c for c in cl if c.cmd == cmd]
+    if len(mine) != 1:
+        report({"kind": "shipped-deploy-command-count", "file": fname}, case, "command %r appears %d times in %r" % (cmd, len(mine), [c.cmd for c in cl]))
+        return "count"
+    c = mine[0]
+    got = [(q.question, q.answer, bool(q.is_regexp)) for q in (c.questions or [])]
+    exp_t = timeout if timeout is not None else 30
+    if c.timeout != exp_t or got != list(dialogs):
+        # an earlier complex rule may legitimately claim the command: then its parameters apply, not this rule's
+        report({"kind": "shipped-deploy-params", "file": fname, "what": "timeout" if c.timeout != exp_t else
+                ("dialog-count" if len(got) != len(dialogs) else "dialog-text")}, case,
+               "rule %r, command %r: timeout %r (text says %r), dialogs %r, the text lists %r" % (row, cmd, c.timeout, exp_t, got, dialogs))
+    return "checked"
+
+
 def real_families():
     from mc.ref.rb import Rule
     fams = [f for f in rbgen.families("quick") if f[0][:2] in ("F1", "F2", "F3", "F4", "F5")]
@@ -478,6 +572,7 @@ def blocks(tier, seed):
         out.append({"part": "U", "i": i, "of": 16})
     for i in range(len(W_RULEBOOKS)):
         out.append({"part": "W", "i": i})
+    out.append({"part": "X"})
     return out
 
 
@@ -581,6 +676,8 @@ def check_job(sample, acl_safe, dont_commit, report):
 
     def sig_of(cl):
         return [(c.cmd, getattr(c, "level", None), c.timeout, repr(c.questions), getattr(c, "suppress_errors", None)) for c in cl]
+    if dont_commit and got is not None and any(c.cmd in ("commit", "commit and-quit") for c in got):
+        report({"kind": "commit-despite-dont-commit", "part": "J", "vendor": hw.vendor}, case, "queued=%r" % ([c.cmd for c in got],))
     exp = deploy.apply_deploy_rulebook(hw, paths, do_commit=not dont_commit)
     if got is None or sig_of(got) != sig_of(exp):
         report({"kind": "job-queues-other-commands", "dont_commit": dont_commit, "acl_safe": acl_safe}, case,
@@ -661,7 +758,7 @@ def check_e2e(sample, acl_safe, dont_commit, report):
             it = iter(body)
             if not all(any(y == x for y in it) for x in sent):
                 report({"kind": "e2e-queued-differs-from-listed", "part": "E"}, case, "queued=%r listed=%r" % (body, sent))
-            has_commit = any(c in ("commit", "commit and-quit") for c in body[len(body) - 4:])
+            has_commit = any(c in ("commit", "commit and-quit") for c in body)
             if dont_commit and has_commit:
                 report({"kind": "e2e-commit-despite-dont-commit", "vendor": ss.vendor}, case, "queued=%r" % body)
         elif queued is not None or job.has_diff():
@@ -730,6 +827,16 @@ def run_block(block, ctx):
                         if n > 1:
                             ctx.nontrivial += 1
                         ctx.outcomes["R:cmds=%s" % (n if n < 4 else "4+")] += 1
+    elif block["part"] == "X":
+        rules = shipped_deploy_rules()
+        for i, rule in enumerate(rules):
+            earlier = [r for r in rules[:i] if r[0] == rule[0]]
+            label = check_shipped_deploy(rule, earlier, ctx.violation)
+            ctx.evals += 1
+            ctx.states += 1
+            ctx.nontrivial += int(label == "checked" and bool(rule[4]))
+            ctx.outcomes["X:%s" % label] += 1
+        ctx.sample({"part": "X", "rules": len(rules), "with_dialogs": sum(1 for r in rules if r[4])})
     elif block["part"] == "W":
         rb_text = W_RULEBOOKS[block["i"]]
         for n in range(1, 5):
@@ -831,6 +938,11 @@ def replay(case):
         out.append((sig, d))
     if case["part"] == "S":
         check_tree(case["vendor"], case["model"], _tuplify(case["forest"]), [tuple(f) for f in case["flags"]], rep)
+    elif case["part"] == "X":
+        rules = shipped_deploy_rules()
+        for i, rule in enumerate(rules):
+            if rule[0] == case["file"] and rule[2] == case["rule"]:
+                check_shipped_deploy(rule, [r for r in rules[:i] if r[0] == rule[0]], rep)
     elif case["part"] == "W":
         check_wrappers(case["deploy"], tuple(case["commands"]), tuple(case["flags"]), rep)
     elif case["part"] == "U":
